@@ -88,6 +88,12 @@ def objects(rng, thorough):
     yield "one-row", lambda: base(n=1)
     yield "five-rows-plain-headers", lambda: base(n=5, headers="default")
     yield "no-nan", lambda: base(nan=False)
+    def objcurve():
+        las = base(n=3)
+        las.append_curve("MIX", np.array([1.5, np.nan, "x"], dtype=object))      # object dtype with a float NaN inside
+        las.append_curve("OBJF", np.array([1.5, np.nan, 3.5], dtype=object))
+        return las
+    yield "object-curves", objcurve
     yield "empty", lambda: lasio.LASFile()
     yield "read-sample", lambda: lasio.read(os.path.join(core.REPO, "tests", "examples", "sample.las"))
     yield "read-wrapped", lambda: lasio.read(os.path.join(core.REPO, "tests", "examples", "1.2", "sample_wrapped.las"))
